@@ -138,8 +138,21 @@ static void resolve_all(const cpu::Config &c, std::vector<std::string> &sel) {
 	sel.resize(sl.size());
 	static std::map<void *, std::string> cache;
 	for (size_t i = 0; i < sl.size(); i++) {
-		guard::Fault f = guard::call([&] { sl[i].dispatch_init(); });
-		if (f.faulted) throw Violation(std::string("dispatch:") + sl[i].name + ":fault", fmt("resolver of %s faulted under %s: %s", sl[i].name, cfg_text(c).c_str(), f.describe().c_str()));
+		// the resolver runs inside the first call of the entry point: it must leave the caller's argument registers alone and may consult nothing but
+		// CPUID / XGETBV - it is run with two opposite register images and must pick the same implementation and hand both images back intact
+		static const uint64_t IMG[2][6] = {{0, 0, 0, 0, 0, 0}, {~0ull, ~0ull, ~0ull, ~0ull, ~0ull, ~0ull}};
+		void *picked[2] = {nullptr, nullptr};
+		for (int im = 0; im < 2; im++) {
+			uint64_t out[6] = {1, 2, 3, 4, 5, 6};
+			*sl[i].slot = sl[i].mbinit;
+			guard::Fault f = guard::call([&] { cpu::verif_call_with_regs(sl[i].dispatch_init, IMG[im], out); });
+			if (f.faulted) throw Violation(std::string("dispatch:") + sl[i].name + ":fault", fmt("resolver of %s faulted under %s: %s", sl[i].name, cfg_text(c).c_str(), f.describe().c_str()));
+			static const char *RN[] = {"rdi", "rsi", "rdx", "rcx", "r8", "r9"};
+			for (int r = 0; r < 6; r++)
+				if (out[r] != IMG[im][r]) throw Violation(std::string("dispatch:") + sl[i].name + ":clobbers-argument-register", fmt("the resolver of %s returns with %s = %llx (was %llx): argument %d of the first call of this entry point is lost (%s)", sl[i].name, RN[r], (unsigned long long) out[r], (unsigned long long) IMG[im][r], r + 1, cfg_text(c).c_str()));
+			picked[im] = *sl[i].slot;
+		}
+		if (picked[0] != picked[1]) throw Violation(std::string("dispatch:") + sl[i].name + ":depends-on-arguments", fmt("the resolver of %s picks %s when the argument registers hold 0 and %s when they hold all ones (%s): the choice depends on the first call's arguments, not only on the processor", sl[i].name, guard::symbolize(picked[0]).c_str(), guard::symbolize(picked[1]).c_str(), cfg_text(c).c_str()));
 		void *p = *sl[i].slot;
 		auto it = cache.find(p);
 		if (it == cache.end()) it = cache.insert({p, guard::symbolize(p)}).first;
@@ -184,6 +197,10 @@ static void check_config(const cpu::Config &c, bool enforced, Ctx &ctx) {
 			if (enforced) throw Violation(key, fmt("%s resolves to %s which needs %s, not available under %s", sl[i].name, sel[i].c_str(), missing_text(miss).c_str(), cfg_text(c).c_str()));
 			ctx.label("informational(weak-closure): " + key);
 		}
+		// instructions no resolver tests for (LZCNT, BMI2: on a processor without them LZCNT silently executes as BSR, BMI2 faults) arrived together
+		// with AVX2 in every x86-64 line; a kernel that contains them may therefore only be selected where AVX2 is reported
+		if (enforced && !(c.l7_ebx & cpu::AVX2) && (info.find("LZCNT") != std::string::npos || info.find("BMI2") != std::string::npos))
+			throw Violation(std::string("dispatch:") + sl[i].name + ":" + sel[i] + ":haswell-new-instructions", fmt("%s resolves to %s which contains %s instructions, but the configuration does not even report AVX2 (%s)", sl[i].name, sel[i].c_str(), info.c_str(), cfg_text(c).c_str()));
 		if (enforced && !any_opt) {
 			// none of the optimised sets is enabled -> portable code everywhere
 			bool portable = sel[i].size() > 5 && (sel[i].rfind("_base") == sel[i].size() - 5 || g_req[sel[i]].judged == 0);
